@@ -221,7 +221,7 @@ func (r tlResult) class() string {
 // drawRates draws 1-3 rates with distinct periods. inDomain: periods >= 1s and
 // burst <= 5 x average (the region the statement guarantees).
 func drawRates(rt *rapid.T, inDomain bool, maxAvg int64) []rateSpec {
-	periods := []time.Duration{time.Second, 1500 * time.Millisecond, 2 * time.Second, 10 * time.Second, time.Minute, time.Hour}
+	periods := []time.Duration{time.Second, 1500 * time.Millisecond, 1900 * time.Millisecond, 1999 * time.Millisecond, 2 * time.Second, 10 * time.Second, time.Minute, time.Hour}
 	if !inDomain {
 		periods = append(periods, 100*time.Millisecond, 10*time.Millisecond)
 	}
@@ -294,7 +294,12 @@ func refillTime(rates []rateSpec) time.Duration {
 func drawStep(rt *rapid.T, rates []rateSpec, label string) time.Duration {
 	r := rates[rapid.IntRange(0, len(rates)-1).Draw(rt, label+"-rate")]
 	tpt := r.perToken()
-	switch rapid.IntRange(0, 13).Draw(rt, label+"-kind") {
+	switch rapid.IntRange(0, 14).Draw(rt, label+"-kind") {
+	case 14:
+		// just short of the time the whole burst needs to come back: a source that has been idle that long must
+		// still be remembered (C03's guarantee), or it would come back to a full bucket too early
+		rf := time.Duration(r.burst) * tpt
+		return rf - time.Duration(rapid.Int64Range(0, int64(time.Second)).Draw(rt, label+"-short-of-refill"))
 	case 0, 1, 2:
 		return 0
 	case 3:
